@@ -1,35 +1,24 @@
 (* C14 — Rank ids, shapes, defaults, formats and active ranges follow the data.
    Property theorems only; each is closed by [exact] of a lemma from Proofs/.
 
-   Proved (full strength, all inputs): the split and swap carry-over; lazy result attributes;
-   iterActive = iterOccupancy when the active range covers the coordinates; a fiber's own
-   estimate and an owned fiber's active range cover its coordinates; the unflatten
-   re-arrangement inverts the flatten re-arrangement.
-   NOT proved in this round (checked on every run by the oracle on the implementation's output
-   and by the model/implementation comparison; statements kept below as comments):
-
-     C14_swizzle_attrs   : forall ids t, wf_kx t (XSwizzle ids) = true ->
-                           swizzle_attrs ids t = swizzle_spec ids t
-     C14_flatten_attrs   : forall d l st t, wf_kx t (XFlatten d l st) = true ->
-                           flatten_attrs d l st t = flatten_spec d l st t
-     C14_unflatten_attrs : forall d l t, wf_kx t (XUnflatten d l) = true ->
-                           unflatten_attrs d l t = unflatten_spec d l t
-     C14_estimate_in_shape : forall n t, a_depth_ok n t = true -> wf_atree [] t = true ->
-                           forall l f c, In f (alevel l t) -> In c (map fst (a_es f)) ->
-                           c < nth l (estimate_shape t) 0
-     C14_build_in_shape / C14_build_in_active / C14_adopt :
-                           forall ids shape d t, wf_kb ids shape d t = true ->
-                           holds_kb ids shape d t (build_obs ids shape d t) = true
-     C14_model_meets_spec : forall c, c14_wf c = true ->
-                           holds c14_checker c (model c14_checker c) = true              *)
+   Model: Model/C14Attrs.v (carry-over blocks of the tensor transforms, as written),
+   Model/C14Build.v (Fiber._calcShape, Tensor._addFiber + Rank.append estimation,
+   Rank.getShape, Fiber.getActive, iterRange, lazy result attributes).
+   Oracle: Model/C14Check.v (firstn/skipn re-arrangements; "every stored coordinate c has
+   0 <= c < shape, lo <= c < hi, c < estimate; a fiber reports its rank's id and default;
+   iterActive = iterOccupancy; an explicit shape is reported as given and authoritative"). *)
 From Coq Require Import ZArith List Bool.
 From FT Require Import Model.Base Model.Obs Model.C14Attrs Model.C14Build Model.C14Check
-                       Proofs.ObsP Proofs.C14BuildP Proofs.C14AttrsP.
+                       Proofs.ObsP Proofs.C14BuildP Proofs.C14AttrsP Proofs.C14FlatP
+                       Proofs.C14UnflatP Proofs.C14SwizP Proofs.C14ShapeP Proofs.C14RankP
+                       Proofs.C14CheckP.
 Import ListNotations.
 Open Scope Z_scope.
 
-(* a split of rank d: X -> X.1, X.0 in place; the authoritative shape, the format of X are
-   duplicated; leaf default and mutability carried *)
+(* ------------------------------------------------------------------ transforms *)
+
+(* a split of rank d: X -> X.1, X.0 in place; the authoritative shape entry and the format of
+   X are duplicated; leaf default and mutability carried *)
 Theorem C14_split_attrs : forall d t,
   wf_kx t (XSplit d) = true ->
   split_attrs d t =
@@ -45,7 +34,7 @@ Theorem C14_split_attrs : forall d t,
 Proof. exact split_attrs_spec. Qed.
 Print Assumptions C14_split_attrs.
 
-(* a swap of ranks d, d+1: ids, authoritative shape (S9 fix) and formats exchanged in place *)
+(* a swap of ranks d, d+1: ids, authoritative shape and formats exchanged in place *)
 Theorem C14_swap_attrs : forall d t,
   wf_kx t (XSwap d) = true ->
   swap_attrs d t =
@@ -53,6 +42,63 @@ Theorem C14_swap_attrs : forall d t,
             (swap_list d (t_fmts t)) (t_mut t)).
 Proof. exact swap_attrs_spec. Qed.
 Print Assumptions C14_swap_attrs.
+
+(* a swizzle: the requested order; rank j of the result has the shape and the format of the
+   operand's rank named new_ids[j] (guide / swiz_len / common-suffix shortcut of the code
+   compute exactly that); default and mutability carried *)
+Theorem C14_swizzle_attrs : forall new_ids t,
+  wf_kx t (XSwizzle new_ids) = true ->
+  swizzle_attrs new_ids t =
+  Some (mkT new_ids
+            (option_map (fun s => map (fun r => nth (pos_of r (t_ids t)) s (SZ 0)) new_ids) (t_shape t))
+            (t_dflt t)
+            (map (fun r => nth (pos_of r (t_ids t)) (t_fmts t) false) new_ids)
+            (t_mut t)).
+Proof. exact swizzle_attrs_spec. Qed.
+Print Assumptions C14_swizzle_attrs.
+
+(* flatten / merge of ranks d .. d+l: the list of the merged ids; one shape entry made of the
+   l+1 entries (tuple, nested pairs, last, first, product by style); format "C" for the merged
+   rank, the others carried; default and mutability carried *)
+Theorem C14_flatten_attrs : forall d l style t,
+  wf_kx t (XFlatten d l style) = true ->
+  flatten_attrs d l style t =
+  Some (mkT (firstn d (t_ids t) ++ [RL (flat_map atoms_of (firstn (S l) (skipn d (t_ids t))))]
+                    ++ skipn (d + S l) (t_ids t))
+            (option_map (fun s => firstn d s ++ [flat_entry style (firstn (S l) (skipn d s))]
+                                          ++ skipn (d + S l) s) (t_shape t))
+            (t_dflt t)
+            (firstn d (t_fmts t) ++ [false] ++ skipn (d + S l) (t_fmts t))
+            (t_mut t)).
+Proof. exact flatten_attrs_spec. Qed.
+Print Assumptions C14_flatten_attrs.
+
+Theorem C14_merge_attrs : forall d l style t,
+  wf_kx t (XMerge d l style) = true ->
+  xform_attrs (XMerge d l style) t = flatten_spec d l style t.
+Proof. exact merge_attrs_spec. Qed.
+Print Assumptions C14_merge_attrs.
+
+(* unflatten of rank d by l levels: the merged id and the tuple shape are peeled component by
+   component in place; new ranks get format "C"; default (S8 fix) and mutability carried *)
+Theorem C14_unflatten_attrs : forall d l t,
+  wf_kx t (XUnflatten d l) = true ->
+  unflatten_attrs d l t =
+  match nth_error (t_ids t) d, t_shape t with
+  | Some (RL atoms), Some s =>
+    match unflat_seg_id l atoms, unflat_seg l (nth d s (SZ 0)) with
+    | Some ids', Some s' =>
+      Some (mkT (firstn d (t_ids t) ++ ids' ++ skipn (S d) (t_ids t))
+                (Some (firstn d s ++ s' ++ skipn (S d) s))
+                (t_dflt t)
+                (firstn d (t_fmts t) ++ repeat false (S l) ++ skipn (S d) (t_fmts t))
+                (t_mut t))
+    | _, _ => None
+    end
+  | _, _ => None
+  end.
+Proof. exact unflatten_attrs_spec. Qed.
+Print Assumptions C14_unflatten_attrs.
 
 (* "its inverse for an unflatten": peeling n+1 levels off the tuple shape / the merged id that
    a tuple-style flatten of n+2 ranks produced gives the original entries back *)
@@ -69,8 +115,63 @@ Proof.
 Qed.
 Print Assumptions C14_unflatten_inverse.
 
-(* lazily produced fibers: merges, pruning, intersection/union carry the first operand's id
-   and active range; populate the destination's id and the source's active range *)
+(* ------------------------------------------------------------------ constructors *)
+
+(* Fiber.estimateShape of an unowned fiber tree (the depth-first _calcShape, S6 fix) bounds
+   every stored coordinate of every level *)
+Theorem C14_estimate_in_shape : forall n t,
+  a_depth_ok n t = true -> a_sorted t = true ->
+  forall l f c, In f (alevel l t) -> In c (map fst (a_es f)) ->
+  c < nth l (estimate_shape t) 0.
+Proof. exact estimate_in_shape. Qed.
+Print Assumptions C14_estimate_in_shape.
+
+(* Tensor.fromFiber: every stored coordinate lies inside the reported shape, whether explicit,
+   taken from fibers' own shapes, or estimated by Rank.append while the tree is walked *)
+Theorem C14_build_in_shape : forall ids shape d t,
+  wf_kb ids shape d t = true ->
+  forall l f c, In f (alevel l t) -> In c (map fst (a_es f)) ->
+  0 <= c < nth l (reported (build_ranks (length ids) shape t) t) 0.
+Proof. exact build_in_shape. Qed.
+Print Assumptions C14_build_in_shape.
+
+(* ... and inside the active range its (now owned) fiber reports; hence active-range iteration
+   of a freshly built fiber is its occupancy iteration *)
+Theorem C14_build_in_active : forall ids shape d t,
+  wf_kb ids shape d t = true ->
+  forall l f, In f (alevel l t) ->
+  let a := get_active (fst (nth l (build_ranks (length ids) shape t) (None, true))) f in
+  (forall c, In c (map fst (a_es f)) -> fst a <= c < snd a)
+  /\ iter_active d a (a_es f) = iter_occupancy d (a_es f).
+Proof. exact build_in_active. Qed.
+Print Assumptions C14_build_in_active.
+
+(* an explicit shape is reported as given and is authoritative *)
+Theorem C14_build_explicit_shape : forall ids s d t,
+  wf_kb ids (Some s) d t = true ->
+  reported (build_ranks (length ids) (Some s) t) t = s
+  /\ authoritative (build_ranks (length ids) (Some s) t) t = Some s.
+Proof. exact build_explicit_shape. Qed.
+Print Assumptions C14_build_explicit_shape.
+
+(* adoption: in the observation of the built tensor every fiber reports the id and the default
+   of its rank (not the ones it was constructed with), next to the clauses above — i.e. the
+   whole KB oracle holds of the model *)
+Theorem C14_adopt : forall ids shape d t,
+  wf_kb ids shape d t = true -> holds_kb ids shape d t (build_obs ids shape d t) = true.
+Proof. exact build_holds. Qed.
+Print Assumptions C14_adopt.
+
+Theorem C14_active_is_occupancy : forall d lo hi es,
+  (forall c, In c (map fst es) -> lo <= c < hi) ->
+  iter_active d (lo, hi) es = iter_occupancy d es.
+Proof. exact iter_active_occupancy. Qed.
+Print Assumptions C14_active_is_occupancy.
+
+(* ------------------------------------------------------------------ lazy results *)
+
+(* merges, pruning, intersection/union carry the first operand's id and active range;
+   populate the destination's id and the source's active range *)
 Theorem C14_lazy_attrs : forall op a b,
   (match op with LProject _ _ _ _ => False | LPop => False | _ => True end ->
    lazy_attrs op a b = mkF (f_id a) (f_active a))
@@ -94,56 +195,29 @@ Proof.
 Qed.
 Print Assumptions C14_lazy_project.
 
-(* if the active range covers the stored coordinates, active-range iteration is occupancy
-   iteration (same elements, same order, explicit defaults and empty sub-fibers skipped) *)
-Theorem C14_active_is_occupancy : forall d lo hi es,
-  (forall c, In c (map fst es) -> lo <= c < hi) ->
-  iter_active d (lo, hi) es = iter_occupancy d es.
-Proof. exact iter_active_occupancy. Qed.
-Print Assumptions C14_active_is_occupancy.
+(* ------------------------------------------------------------------ model meets oracle *)
+Theorem C14_model_meets_spec : forall c,
+  c14_wf c = true -> holds c14_checker c (model c14_checker c) = true.
+Proof. exact c14_model_holds. Qed.
+Print Assumptions C14_model_meets_spec.
 
-(* what Rank.append uses as the estimate of one fiber bounds every coordinate of the fiber *)
-Theorem C14_fiber_estimate_covers : forall es c,
-  ssorted (map fst es) = true -> In c (map fst es) -> c < est1 es.
-Proof. exact est1_bound. Qed.
-Print Assumptions C14_fiber_estimate_covers.
-
-(* the active range an owned fiber reports (no range of its own) covers its coordinates,
-   provided the rank's shape, when it has one, bounds them *)
-Theorem C14_owned_active_covers : forall rshape own es c,
-  ssorted (map fst es) = true ->
-  (forall x, In x (map fst es) -> 0 <= x) ->
-  (forall s, rshape = Some s -> s <> 0 -> forall x, In x (map fst es) -> x < s) ->
-  In c (map fst es) ->
-  fst (get_active rshape (ANode own None es)) <= c < snd (get_active rshape (ANode own None es)).
-Proof. exact get_active_covers. Qed.
-Print Assumptions C14_owned_active_covers.
-
-(* the faithful model meets the oracle — proved for the lazy cases and the split and swap
-   transforms; the full statement (all case kinds) is in the header comment *)
-Theorem C14_model_meets_spec_partial : forall c,
-  c14_wf c = true ->
-  match c with
-  | KL _ _ _ => True
-  | KX _ (XSplit _) => True
-  | KX _ (XSwap _) => True
-  | _ => False
-  end ->
-  holds c14_checker c (model c14_checker c) = true.
-Proof. exact c14_model_holds_partial. Qed.
-Print Assumptions C14_model_meets_spec_partial.
-
-(* non-vacuity: a 3-rank tensor with an authoritative shape, non-zero default, a "U" rank *)
+(* non-vacuity *)
 Example C14_nonvacuous :
   let t := mkT [RS [0]; RS [1]; RS [2]] (Some [SZ 4; SZ 8; SZ 3]) 7 [true; false; true] true in
+  let tr := ANode None None [(0, ANode None None [(1, ALeaf 1)]); (1, ANode (Some 9) None [(5, ALeaf 1)])] in
   wf_kx t (XSplit 1) = true /\ wf_kx t (XSwap 0) = true
-  /\ split_attrs 1 t = Some (mkT [RS [0]; RS [1; 1]; RS [1; 0]; RS [2]]
-                                 (Some [SZ 4; SZ 8; SZ 8; SZ 3]) 7 [true; false; false; true] true)
-  /\ swap_attrs 0 t = Some (mkT [RS [1]; RS [0]; RS [2]] (Some [SZ 8; SZ 4; SZ 3]) 7
-                                [false; true; true] true)
-  /\ c14_wf (KL (LProject (-2) 3 None None) (mkR [0] (Some 8) None [1; 5]) (mkR [1] None None [])) = true
-  /\ c14_wf (KB [RS [0]; RS [1]] None 0
-               (ANode None None [(0, ANode None None [(1, ALeaf 1)]); (1, ANode None None [(5, ALeaf 1)])])) = true
-  /\ estimate_shape (ANode None None [(0, ANode None None [(1, ALeaf 1)]);
-                                      (1, ANode None None [(5, ALeaf 1)])]) = [2; 6].
+  /\ wf_kx t (XSwizzle [RS [2]; RS [0]; RS [1]]) = true /\ wf_kx t (XFlatten 0 2 1) = true
+  /\ wf_kx t (XMerge 1 1 4) = true
+  /\ wf_kx (mkT [RL [[0]; [1]; [3]]; RS [2]] (Some [ST [SZ 4; ST [SZ 8; SZ 2]]; SZ 3]) 7 [false; true] true)
+           (XUnflatten 0 2) = true
+  /\ swizzle_attrs [RS [2]; RS [0]; RS [1]] t
+     = Some (mkT [RS [2]; RS [0]; RS [1]] (Some [SZ 3; SZ 4; SZ 8]) 7 [true; true; false] true)
+  /\ flatten_attrs 0 2 1 t
+     = Some (mkT [RL [[0]; [1]; [2]]] (Some [ST [SZ 4; ST [SZ 8; SZ 3]]]) 7 [false] true)
+  /\ c14_wf (KL (LProject (-2) 3 None None) (mkR [0] (Some 8) None [1; 5] None) (mkR [1] None None [] (Some (Some 6)))) = true
+  /\ c14_wf (KB [RS [0]; RS [1]] None 0 tr) = true
+  /\ c14_wf (KB [RS [0]; RS [1]] (Some [2; 5]) 3 tr) = false
+  /\ c14_wf (KB [RS [0]; RS [1]] (Some [2; 9]) 3 tr) = true
+  /\ estimate_shape tr = [2; 6]
+  /\ reported (build_ranks 2 None tr) tr = [2; 9].
 Proof. vm_compute. repeat split. Qed.
